@@ -12,7 +12,7 @@ import ast
 
 from mlmverif import affine as af
 from mlmverif import cfg as cfgm
-from mlmverif.core import (AnalysisError, parent_map, Ctx, FuncInfo, is_self_attr, unparse,
+from mlmverif.core import (AnalysisError, parent_map, kwarg, Ctx, FuncInfo, is_self_attr, unparse,
                            walk_no_nested)
 from mlmverif.props._shard import IO, summary
 from mlmverif.sym import Poly
@@ -39,7 +39,7 @@ ASSUMPTIONS = ['_RangeIterator read-ahead size is >= 1 (max_batch_size >= 1).',
 
 
 def run(ctx: Ctx):
-  for r in (r1, r2, r3, r4, r6, r7, r8, r9, r10, r12, r13, r14, r15):
+  for r in (r1, r2, r3, r4, r6, r7, r8, r9, r10, r12, r13, r14, r15, r16, r17):
     ctx.guard(r)
   from mlmverif.props import c10
   ctx.include('R-C09-11', '"rebuilding a shard from its recorded state yields the same'
@@ -1114,10 +1114,75 @@ def r15(ctx: Ctx):
   ctx.floor(rule, 3, n)
 
 
+def r16(ctx: Ctx):
+  rule = 'R-C09-16'
+  ctx.rule(rule, '"rebuilding a shard from its recorded state yields the same elements ... report their true length": the position a'
+           ' sequence iterator records counts the elements it has passed, and reaching the END passes nothing. In `__next__`'
+           ' of the io.py iterators no `self._index` increment stands in a `finally` block, in a bare / BaseException /'
+           ' StopIteration handler — places the exhaustion exit runs through. An iterator read to its end would otherwise'
+           ' record `size + 1` (and one more per further next()): the shard rebuilt from that state has start > end, its'
+           ' len() raises instead of reporting 0')
+  mi = ctx.repo.module(IO)
+  n = 0
+  for ci in mi.classes.values():
+    fi = ci.methods.get('__next__')
+    if fi is None or not any(is_self_attr(x) and x.attr == '_index' for x in ast.walk(fi.node)):
+      continue
+    n += 1
+    bad = None
+    def incs(nodes):
+      return [x for b in nodes for x in ast.walk(b) if isinstance(x, ast.AugAssign) and is_self_attr(x.target) and x.target.attr == '_index']
+    for t in ast.walk(fi.node):
+      if isinstance(t, ast.Try):
+        if incs(t.finalbody):
+          bad = (incs(t.finalbody)[0], 'a `finally` block (it also runs when the draw raised StopIteration)')
+        for h in t.handlers:
+          names = unparse(h.type) if h.type is not None else ''
+          catches_stop = h.type is None or 'BaseException' in names or 'StopIteration' in names
+          if catches_stop and incs(h.body):
+            bad = (incs(h.body)[0], f'the handler `except {names or ""}:` (it catches the StopIteration of the draw)')
+    what = f'{ci.name}.__next__: the exhaustion exit does not advance the recorded position'
+    if bad:
+      ctx.fail(rule, fi, what,
+               f'`{unparse(bad[0])}` stands in {bad[1]}: an iterator read to its end records a position past the end of its shard,'
+               ' the shard rebuilt from that state has a negative length (len() and iteration raise ValueError)', node=bad[0])
+    else:
+      ctx.ok(rule, fi, what, fi.node)
+  ctx.floor(rule, 2, n)
+
+
+def r17(ctx: Ctx):
+  rule = 'R-C09-17'
+  ctx.rule(rule, '"merged sequences iterate, index and slice exactly like their concatenation": the read-ahead cache of the range'
+           ' iterator holds a whole batch read — it is an unbounded deque (no `maxlen`, no second positional argument). A'
+           ' bound drops the OLDEST entries when a batch larger than the bound is read (a configured read-ahead above the'
+           ' default): the first elements of that batch vanish silently from the iteration, from slices and from every'
+           ' shard built on the merged sequence')
+  ci = ctx.repo.cls('utils.iter_utils', '_RangeIterator')
+  n = 0
+  for name, fi in ci.methods.items():
+    for c in ast.walk(fi.node):
+      if isinstance(c, ast.Call) and unparse(c.func).split('.')[-1] == 'deque':
+        n += 1
+        what = f'_RangeIterator.{name}: the read-ahead cache is unbounded'
+        if kwarg(c, 'maxlen') is not None or len(c.args) >= 2:
+          ctx.fail(rule, fi, what,
+                   f'`{unparse(c)[:60]}` bounds the read-ahead cache: a batch read larger than the bound pushes its own first'
+                   ' elements out before they are delivered', node=c)
+        else:
+          ctx.ok(rule, fi, what, c)
+  ctx.floor(rule, 1, n)
+
+
 from mlmverif.selfcheck import B, OK  # noqa: E402
 
 _F = 'chainables/io.py'
 VARIANTS = [
+    B('sequence-iterator-counts-in-finally', 'chainables/io.py',
+      "    except StopIteration:\n      raise\n    except Exception:\n      # The reader steps over a record it cannot read before raising, the\n      # iteration can continue behind it: the record still occupies an index.\n      self._index += 1\n      raise\n    self._index += 1\n    return result",
+      "      return result\n    finally:\n      self._index += 1", 'R-C09-16'),
+    B('range-cache-bounded-by-the-default-batch', 'utils/iter_utils.py',
+      "    self._cache = collections.deque()\n\n  def __next__(self):\n    while not self._cache and self.i < self.stop:", "    self._cache = collections.deque(maxlen=_RANDOM_ACCESS_BATCH_SIZE)\n\n  def __next__(self):\n    while not self._cache and self.i < self.stop:", 'R-C09-17'),
     B('merged-iter-chains-the-parts', 'utils/iter_utils.py',
       "  def __iter__(self):\n    return self.slice(slice(None))\n\n\nclass MultiplexIterator", "  def __iter__(self):\n    return itt.chain.from_iterable(self._sequences)\n\n\nclass MultiplexIterator", 'R-C09-15'),
     OK('merged-iter-by-index', 'utils/iter_utils.py',
